@@ -98,6 +98,10 @@ def gen(seed, tier):
             mvcc.gen_script(r, ncell, r.randint(2, 6), write_p=0.7,
                             rc_p=0.15, abort_p=0.05, misc_p=0.08)
             for _ in range(nclient)]
+        if r.random() < 0.25:
+            # bystanders asking the storage itself (getTid, history,
+            # loadSerial ... go through its own file handle)
+            case['pokers'] = mvcc.gen_pokers(r, ncell)
         if r.random() < 0.3 and kind == 'file':
             # a client undoes one of its own commits while others hold
             # copies derived from the undone revision
@@ -281,6 +285,7 @@ def run(case):
             mvcc.check_no_lost_updates(w, log)
             mvcc.check_read_current(w, log)
             mvcc.check_snapshots(w, log)
+            mvcc.check_pokers(w, log, w.poker_results)
             if not s.deadlock and not s.capped:
                 mvcc.check_final_state(w, log)
                 # every connection can commit afterwards (stale copies were
